@@ -95,6 +95,11 @@ class Monitor(object):
                 same_visit = (t == "interrupted service" and _isnan(r.destination))
                 if not same_visit:
                     services_in_visit = 0
+                if t == "renege" and r.destination is not False and not _isnan(r.destination):
+                    # a renege record need not name its destination, but a destination it NAMES must be where the customer went
+                    went = recs[k + 1].node if not last else loc
+                    if went != r.destination:
+                        self.violate("renege_record_names_wrong_destination", {"id": i, "node": r.node, "named": r.destination, "went_to": went})
                 if last:
                     break
                 nx = recs[k + 1]
@@ -137,7 +142,7 @@ class Spec(object):
     assumptions = [
         "the arrival node and instant of each customer are taken from the arrival event observed at the node_class seam "
         "(exact mode: from the first acceptance)",
-        "a renege record is not required to name its destination; the jockeying target is taken from the router seam",
+        "a renege record is not required to name its destination (unchanged code writes False) but a node it names must be where the customer went; the jockeying target is taken from the router seam",
     ]
 
     def monitors(self, cfg):
@@ -172,6 +177,17 @@ def focused(tier):
     out += sched_preempt_two_upstream(tier)
     out += sched_preempt_chain(tier)
     out += mixed_tandem(tier)
+    out += per_class_per_node_reneging(tier)       # reneging at a LATER node of the journey
+    out.append(cfg("renege at node 2 with jockeying to node 3", "F-renege", [node(c=1), node(c=1), node(c=1)],
+                   {"A": klass([ARR, None, None], [[1.0, 0.5], [3.0, 1.0], [1.0]], renege=[None, PAT, None],
+                               route=network(direct(2), leave(jockey_to=3), leave()))}, K=K, T=12.0, D=5 if tier == "quick" else 8,
+                   features=["reneging", "jockeying"]))
+    # exact arithmetic with shift boundaries that are not binary fractions: every date of the chain must be the SAME Decimal
+    for opt in ("reroute", "resume"):
+        out.append(cfg("exact=12 sched %s, boundaries 2.1 / 3.3" % opt, "F-exact",
+                       [node(c={"sched": {"numbers": [1, 0], "ends": [2.1, 3.3], "preempt": opt}}), node(c=1)],
+                       {"A": klass([[0.7, 1.1], None], [[2.3, 1.2], [0.9]], route=matrix([[0.0, 1.0], [0.0, 0.0]]))},
+                       K=K, T=9.0, exact=12, features=["exact", "schedule", "preempt_sched"]))
     return out
 
 
